@@ -62,8 +62,8 @@ ReachA(E, S0) ==
       Grow(S) == LET nx == S \cup {e[2] : e \in {e \in E : e[1] \in S}} IN IF nx = S THEN S ELSE Grow(nx)
   IN Grow(S0)
 CyclicA(E) == \E e \in E : e[1] \in ReachA(E, {e[2]})
-AExact(sr, M) == IsIntSR(sr) \/ ~CyclicA(EpsEdges(M))
-ATotalExact(sr, M) == IsIntSR(sr) \/ ~CyclicA(ArcEdges(M))
+AExact(sr, M) == IsFinSR(sr) \/ ~CyclicA(EpsEdges(M))
+ATotalExact(sr, M) == IsFinSR(sr) \/ ~CyclicA(ArcEdges(M))
 
 (* structural predicates *)
 Alphabet(M) == {M.arcs[r][2] : r \in DOMAIN M.arcs} \ {EPS}
@@ -132,7 +132,7 @@ TWeight(sr, M, x, y) ==
 
 TEpsEdges(M) == {<<M.arcs[r][1], M.arcs[r][4]>> :
                     r \in {r \in DOMAIN M.arcs : M.arcs[r][2] = EPS /\ M.arcs[r][3] = EPS}}
-TExact(sr, M) == IsIntSR(sr) \/ ~CyclicA(TEpsEdges(M))
+TExact(sr, M) == IsFinSR(sr) \/ ~CyclicA(TEpsEdges(M))
 TInAlphabet(M) == {M.arcs[r][2] : r \in DOMAIN M.arcs} \ {EPS}
 TOutAlphabet(M) == {M.arcs[r][3] : r \in DOMAIN M.arcs} \ {EPS}
 
